@@ -64,10 +64,17 @@ impl Locator {
                 }
             }
         }
+        // the document type declaration is not a node of the XPath data model: it gets no child index
         let kids = n.child_nodes();
+        let mut j = 0;
         for i in 0..kids.length() {
             if let Some(k) = kids.item(i) {
-                self.walk(&k, &format!("{}/{}", path, i), depth + 1);
+                if let XmlNode::DocumentType(_) = k {
+                    self.by_id.entry(k.id()).or_insert(format!("{}/!doctype", path));
+                    continue;
+                }
+                self.walk(&k, &format!("{}/{}", path, j), depth + 1);
+                j += 1;
             }
         }
     }
